@@ -22,6 +22,9 @@ type Obs struct {
 	V   any     `json:"v"`
 }
 
+// Proj projects a value the way the specification observes it.
+func Proj(v otto.Value) any { return proj(v) }
+
 func proj(v otto.Value) any {
 	switch {
 	case v.IsUndefined():
